@@ -181,9 +181,10 @@ CHECKS["C10"] = dict(
     rule=("one write per case: content length (0,1,100,2047-2049,4096,5000,32767-32769,65536,65537,100000 or any 0..70000) x previous state of the key (absent/value/deleted) x client "
           "(inline Set/SetReader/Create, external Set/SetReader/Create against an in-process server, the server's SetFile handler driven through a fake stream) x optional enclosing ReadCommitted transaction x fault: "
           "source reader error at byte p, context cancelled after p bytes (the source then stalls 0-3 ms), the connection to the server broken after p bytes (gRPC SetReader/Create: the server drops all its connections; it is then started again on the same directories and a new client reads), File.Write returning ENOSPC at byte p with r in {0,1,2,100,2047,2048,32767,all} bytes of the failing chunk already written on all or a proper subset of 1-3 roots "
-          "with per-root reported free space, stream Recv error (Canceled/Unavailable/unexpected EOF) at message i, or no fault; p from {0,1,2047,2048,2049,32767,32768,32769,L-1,L,L+1} or anywhere. "
+          "with per-root reported free space, stream Recv error (Canceled/Unavailable/unexpected EOF) at message i, a transient I/O error (EIO, once) at the 1st-3rd directory creation / directory listing / content-file creation / Badger record write the operation performs (for directory creation the write goes into an empty database, the only moment directories are created), or no fault; p from {0,1,2047,2048,2049,32767,32768,32769,L-1,L,L+1} or anywhere. "
           "Oracle: returned error => an independent reader (same client and a second connection) reads the previous value/ErrNotFound and the unrelated key is unchanged; nil => reads exactly the source bytes; "
           "incomplete source (reader/Recv error, broken connection) => must be an error; ENOSPC on all roots => ErrNoFreeSpace; ENOSPC where a healthy root reports more free space than every failing root => must succeed. "
+          "Afterwards, for every case: one more write of the key without any fault must succeed and be what every reader then reads (a failed write leaves nothing behind that gets in the way of the next one; every root still offers a directory). "
           "non-trivial = the injected fault actually fired (hook/reader counter)."),
     assumptions=["the server side of an aborted upload finishes asynchronously: the check waits until no instrumented step happened for 40 ms before reading (can only miss, never invent a trace)",
                  "ENOSPC is injected at the File.Write wrapper (hook), free space through the disk-usage hook; all roots of the sandbox share one real filesystem"],
